@@ -50,7 +50,9 @@ func (solarWeek *SolarWeek) GetIndex() int {
 	if offset < 0 {
 		offset += 7
 	}
-	return int(math.Ceil(float64(solarWeek.day+offset) / 7))
+	// 当月第几天（1582年10月只有21天）
+	dayInMonth := SolarUtil.GetDaysInYear(solarWeek.year, solarWeek.month, solarWeek.day) - SolarUtil.GetDaysInYear(solarWeek.year, solarWeek.month, 1) + 1
+	return int(math.Ceil(float64(dayInMonth+offset) / 7))
 }
 
 func (solarWeek *SolarWeek) GetIndexInYear() int {
